@@ -869,20 +869,26 @@ def main(tier, replay=None):
         corr_err = str(ex)
 
     # ---- the Hockney field solve: layout of the doubled Green array, potential, field stencil, whole solve
+    import time
+    t_h = time.time()
     hbad, hterms, horigin = hockney_layer(run, 40 if thorough else 12, thorough)
     new_bad += hbad
     hfail = {}
     try:
-        for name, checker, shard in (("green", "hg_check", 12), ("potential", "hp_check", 6), ("potential_open", "hp_check_open", 12),
-                                     ("field", "hf_check", 12), ("solve", "hs_check", 4)):
-            if hterms[name]:
-                f = common.run_shards(PID, "hockney_" + name, PRE_H, hterms[name], checker, shard=shard)
-                run.count("hockney_coq_cases_" + name, len(hterms[name]))
-                run.cov["traces_validated_against_impl"] += len(hterms[name])
+        from concurrent.futures import ThreadPoolExecutor
+        stages = [(n, c, sh) for n, c, sh in (("green", "hg_check", 10), ("potential", "hp_check", 4), ("potential_open", "hp_check_open", 10),
+                                              ("field", "hf_check", 10), ("solve", "hs_check", 3)) if hterms[n]]
+        with ThreadPoolExecutor(max_workers=5) as ex:      # the stages side by side; each shards its cases over several coqc processes
+            futs = [(n, ex.submit(common.run_shards, PID, "hockney_" + n, PRE_H, hterms[n], c, shard=sh)) for n, c, sh in stages]
+            for n, fu in futs:
+                f = fu.result()
+                run.count("hockney_coq_cases_" + n, len(hterms[n]))
+                run.cov["traces_validated_against_impl"] += len(hterms[n])
                 if f:
-                    hfail[name] = f
+                    hfail[n] = f
     except RuntimeError as ex:
         corr_err = (corr_err or "") + str(ex)
+    run.cov["hockney_layer_wall_s"] = round(time.time() - t_h, 1)
 
     # ---- metamorphic oracles on full kicks
     seen_f50 = []
